@@ -1093,9 +1093,28 @@ impl ProtoExpression {
                     // A bit-/part-select is unsigned even inside a signed
                     // context (the interpreter reads it as an unsigned value):
                     // only operands that are themselves signed sign-extend.
+                    // A signed comparison reads both operands as signed numbers
+                    // of the comparison width (the wider operand's): an unsigned
+                    // operand is zero-extended to that width first, so it is
+                    // negative only when it fills it.
+                    let is_cmp = matches!(
+                        op,
+                        Op::Greater
+                            | Op::GreaterEq
+                            | Op::Less
+                            | Op::LessEq
+                            | Op::Eq
+                            | Op::Ne
+                            | Op::EqWildcard
+                            | Op::NeWildcard
+                    );
+                    let cmp_width = x.width().max(y.width());
                     if operand_is_signed(x) {
                         (x_payload, x_mask_xz) =
                             expand_sign(width, x.width(), x_payload, x_mask_xz, builder);
+                    } else if is_cmp && cmp_width > 0 {
+                        (x_payload, x_mask_xz) =
+                            expand_sign(width, cmp_width, x_payload, x_mask_xz, builder);
                     }
                     // The shift count `y` is an unsigned magnitude, so it must
                     // not be sign-extended: a narrow count with its MSB set
@@ -1109,6 +1128,9 @@ impl ProtoExpression {
                     {
                         (y_payload, y_mask_xz) =
                             expand_sign(width, y.width(), y_payload, y_mask_xz, builder);
+                    } else if is_cmp && cmp_width > 0 && !operand_is_signed(y) {
+                        (y_payload, y_mask_xz) =
+                            expand_sign(width, cmp_width, y_payload, y_mask_xz, builder);
                     }
                 }
 
